@@ -50,7 +50,7 @@ PROPS = {
     'C06': dict(streams=[('expr', 5000, 150000), ('conditional', 60, 1500)]),
     'C07': dict(streams=[('update', 5000, 150000), ('single-item', 80, 2000)]),
     'C08': dict(streams=[('failing', 200, 3000)]),
-    'C09': dict(streams=[('malformed', 2000, 150000), ('expr', 1200, 50000), ('update', 600, 30000), ('conditional', 60, 1500), ('lazy', 80, 1500)]),
+    'C09': dict(streams=[('malformed', 2000, 150000), ('expr', 1200, 50000), ('update', 600, 30000), ('conditional', 60, 1500), ('lazy', 80, 1500), ('native', 80, 1500)]),
     'C10': dict(streams=[('values', 200, 3000)]),
     'C12': dict(streams=[('numbers', 3000, 200000), ('update', 1200, 50000), ('numkeys', 120, 2000), ('expr', 2500, 50000), ('keys', 60, 1500)]),
     'C13': dict(streams=[('keys', 200, 3000), ('page', 50, 1000)]),
